@@ -87,13 +87,17 @@ theorem lastDequeue_hist {s : BState} (h : Hist s) (c : ConnId) (x : BConn) :
       · rw [hs']; exact h
       · split at hs'
         · simp only [List.mem_singleton] at hs'
-          rw [hs']; split <;> exact h.setSessOf c _
+          rw [hs']; split
+          · exact h.setSessOf c _
+          · split <;> exact h.setSessOf c _
         · cases hs'
       · split at hs'
         · cases hs'
         · simp only [List.mem_map] at hs'
           obtain ⟨e, _, he⟩ := hs'
-          rw [← he]; split <;> exact h.setSessOf c _
+          rw [← he]; split
+          · exact h.setSessOf c _
+          · split <;> exact h.setSessOf c _
 
 theorem ResHist.cleanup {s : BState} (h : Hist s) (c : ConnId) (x : BConn) : ResHist (cleanup s c x) := by
   unfold BState.cleanup
@@ -401,8 +405,9 @@ theorem acceptDelivery_hist {s s' : BState} (h : Hist s) (c : ConnId) (x : BConn
             some ((s.setSessOf c b').setConn c
               (retake { x with deqHand := false, deqChan := min s.cfg.window (x.deqChan + 1) })))
          else
-          (if (b'.sess.nextID).1 ≠ id then none else
-            some ((s.setSessOf c { b' with sess := (b'.sess.nextID).2.savePacket .outgoing (.publish out false id) }).setConn c
+          (if (b'.sess.freshID).1 = 0 then none else
+           if (b'.sess.freshID).1 ≠ id then none else
+            some ((s.setSessOf c { b' with sess := (b'.sess.freshID).2.savePacket .outgoing (.publish out false id) }).setConn c
               (retake { x with deqHand := false })))) = some r → Hist r := by
       intro b' out r hr
       split at hr
@@ -411,7 +416,9 @@ theorem acceptDelivery_hist {s s' : BState} (h : Hist s) (c : ConnId) (x : BConn
         · injection hr with hr; rw [← hr]; hist_frame h
       · split at hr
         · cases hr
-        · injection hr with hr; rw [← hr]; hist_frame h
+        · split at hr
+          · cases hr
+          · injection hr with hr; rw [← hr]; hist_frame h
     simp only at ha
     split at ha
     · rename_i s1 hfs
